@@ -32,9 +32,9 @@ CONFIGS = [
     ("byname", ["-enable=dupCase,assignOp,elseif,sloppyLen,wrapperFunc,captLocal,hugeParam", "-disable="],
      ["-enable=dupCase,assignOp,elseif,sloppyLen,wrapperFunc,captLocal,hugeParam", "-disable="]),
     ("bytag", ["-enable=#diagnostic,#performance", "-disable=#experimental"], ["-enable=#diagnostic,#performance", "-disable=#experimental"]),
+    ("go116", ["-enableAll", "-go=1.16"], ["-enable-all", "-go=1.16"]),
     ("params", ["-enableAll", "-@hugeParam.sizeThreshold=8", "-@captLocal.paramsOnly=false", "-@ifElseChain.minThreshold=1"],
      ["-enable-all", "-@hugeParam.sizeThreshold=8", "-@captLocal.paramsOnly=false", "-@ifElseChain.minThreshold=1"]),
-    ("go117", ["-enableAll", "-go=1.17"], ["-enable-all", "-go=1.17"]),
     ("notests", ["-enableAll", "-checkTests=false"], ["-enable-all", "-test=false"]),
 ]
 
@@ -54,7 +54,7 @@ def norm(lines, wdir):
 
 def make_shapes(ctx):
     """One module with: a plain package, one with in-package tests, one with external tests, one with both."""
-    w = wsmod.make(ctx, "ws_c08", 4)
+    w = wsmod.make(ctx, "ws_c08", 4, adv=("imports", "noimports", "gated", "onlyclause"))
     d = w["dir"]
     intest = "package p1\n\nimport \"testing\"\n\nfunc TestIn(t *testing.T) {\n\tx := 1\n\tx = x + 1\n\t_ = x\n\tvar xs []int\n\tif len(xs) >= 0 {\n\t\tt.Log(\"always\")\n\t}\n}\n"
     open(os.path.join(d, "p1", "in_test.go"), "w").write(intest)
@@ -104,7 +104,7 @@ def run(ctx):
                      % (fe, len(names), len(full), missing[:8], extra[:8]), {"frontend": fe, "missing": missing, "extra": extra})
 
     # diagnostics equality
-    cfgs = CONFIGS if thorough else CONFIGS[:5]
+    cfgs = CONFIGS if thorough else CONFIGS[:6]
     compared = 0
     total = 0
     samples = []
